@@ -104,7 +104,7 @@ func c13(r *Run) {
 		ss := &Search{Fn: onAccept}
 		_ = ss
 		starts := edgesEstablishing(onAccept, callResultAtom(ro.isActive, true))
-		r.mustPass("C13.R1:tracked-goes-through-onConnect", "every connection that is tracked goes on to onConnect()", onAccept, nil, []Start{After(store)}, func(i ssa.Instruction) bool { return isCall(i, ro.onConnectM) }, nil, nil, "onConnect() on every path after the Store")
+		r.mustPass("C13.R1:tracked-goes-through-onConnect", "every connection that is tracked (and still open) goes on to onConnect()", onAccept, nil, []Start{After(store)}, func(i ssa.Instruction) bool { return isCall(i, ro.onConnectM) }, cutOn(closedFact(ro)), nil, "onConnect() on every path after the Store (unless the connection was seen closed)")
 		_ = starts
 	}
 	// who touches the map
